@@ -9,7 +9,7 @@ Environment: an RFC 8555 CA with an account table (account -> key, status), a re
 injected failures (500, transport error, malformed, unauthorized, reply lost after the effect, directory 500).
 
  (1) TLC model-checks A1..A5 + TypeOK/ServerSane/Progress exhaustively on bounded instances (1 caller x 3-5
-     calls, 2 callers x 2-4 calls, 3 callers x 3 calls); four deliberately wrong clients (no mutex around the lookup, key committed
+     calls, 2 callers x 2-5 calls, 3 callers x 4 calls); four deliberately wrong clients (no mutex around the lookup, key committed
      before the reply, new key kept after a failed rollover, Location of a 409 cached as KID) and the
      "AccountKeyRollover concurrently with other calls" instance must produce their counterexamples.
  (2) binding R: AcmeAccount_Gen emits one witness history per distinct (model state, last event), every one
@@ -117,8 +117,8 @@ def run(ctx):
 
     docs = ["Doc_noMutex", "Doc_commitEarly", "Doc_keepNew", "Doc_cache409", "Doc_concurrentRollover"]
     if ctx.thorough:
-        cfgs = ["MCseq", "MCseq5", "MCconc", "MCconc4", "MC3callers"] + docs + ["Gen4", "Gen5s"]
-        workers = {"MCseq": 2, "MCseq5": 3, "MCconc": 5, "MCconc4": 8, "MC3callers": 5}
+        cfgs = ["MCseq5", "MCconc", "MCconc4", "MCconc5", "MC3callers4"] + docs + ["Gen5", "Gen6s"]
+        workers = {"MCseq5": 2, "MCconc": 4, "MCconc4": 8, "MCconc5": 3, "MC3callers4": 8}
     else:
         cfgs = ["MCseq", "MCconcq"] + docs + ["Gen3"]
         workers = {"MCseq": 2, "MCconcq": 8}
@@ -131,7 +131,7 @@ def run(ctx):
 
     def early_go():
         return ctx.go_test("x09", "TestRandom", timeout=900, race=True,
-                           env={"VERIF_TRACES": tpr, "X09_SESSIONS": ctx.pick(90, 1500)})
+                           env={"VERIF_TRACES": tpr, "X09_SESSIONS": ctx.pick(90, 3000)})
     with cf.ThreadPoolExecutor(max_workers=1) as ex:
         fut = ex.submit(early_go)
         res = _par_tlc(ctx, cfgs, workers)
@@ -180,7 +180,7 @@ def run(ctx):
     ctx.extra["recorded_traces_validated"] = nval[0]
     ctx.exhaustive = False
     ctx.notes.append("model checking is exhaustive within the stated bounds; the replay covers one witness per distinct (model state, last "
-                     "event) of the sequential instances (quick: 3 calls with every failure class; thorough: 4 calls with every failure class and 5 calls "
+                     "event) of the sequential instances (quick: 3 calls with every failure class; thorough: 5 calls with every failure class and 6 calls "
                      "with 500 / lost reply); concurrent behaviour is sampled (seeded sessions of two goroutines) and judged by trace validation")
     ctx.notes.append("observations, not charged: (1) a nil-key request whose account lookup finds nothing goes out in jwk form signed with "
                      "Client.Key (documented in postNoRetry; RFC 8555 6.2 wants kid, a CA refuses it); (2) UpdateReg / DeactivateReg / "
